@@ -133,7 +133,7 @@ def check_prop(res, rng, ast, names, payload=None):
     m = build(ast)
     if is_var(m):
         return None
-    s = m.to_b64()
+    s = m.to_b64() if rng.random() < 0.6 else m.to_b64(str_decoding=rng.choice(["utf8", "ascii", "latin-1"]))     # documented keyword; base64 text is ASCII
     m2 = pg.from_b64(s)
     res.evaluations += 1
     if type(m) is not type(m2):
